@@ -3,7 +3,7 @@
 import json, sys
 from pathlib import Path
 sys.path.insert(0, str(Path(__file__).resolve().parent.parent))
-from pdelint.manifest_data import CHECKS, NOT_APPLICABLE, NOTES
+from pdelint.manifest_data import CHECKS, NOT_APPLICABLE, NOTES, TEXT_ADDENDA
 import jsonschema
 
 props = [json.loads(l)["id"] for l in open(Path(__file__).resolve().parent.parent / "properties.jsonl")]
@@ -18,7 +18,7 @@ for pid in props:
             "evidence_file": f"evidence/{pid}.json",
             "replay_cmd_template": "bin/check --replay {path}",
             "engine": "pdelint",
-            "level_claimed": {"category": c["level"], "text": c["text"], "design_ref": f"DESIGN.md §3 {pid}"},
+            "level_claimed": {"category": c["level"], "text": c["text"] + (" Also: " + TEXT_ADDENDA[pid] if pid in TEXT_ADDENDA else ""), "design_ref": f"DESIGN.md §3 {pid}"},
             "level_note": c["note"],
             "technique": c["technique"],
         })
